@@ -6,7 +6,9 @@ THOROUGH_SEEDS = 1
 def cases(tier, seed):
     th = tier == 'thorough'
     cs = []
-    structs = [([3], [1, 1], [1, 1]), ([2, 3], [1, 2, 1], [1, 2, 1]), ([2, 2], [1, 1, 1], [1, 3, 1]), ([2, 2, 2], [1, 2, 2, 1], [1, 1, 2, 1])]
+    # (mode sizes from 1: slices such as x[:, :, 1:2] have singleton modes)
+    structs = [([3], [1, 1], [1, 1]), ([2, 3], [1, 2, 1], [1, 2, 1]), ([2, 2], [1, 1, 1], [1, 3, 1]), ([2, 2, 2], [1, 2, 2, 1], [1, 1, 2, 1]),
+               ([3, 1], [1, 2, 1], [1, 1, 1]), ([1, 3], [1, 1, 1], [1, 1, 1]), ([2, 1, 2], [1, 2, 2, 1], [1, 1, 1, 1]), ([1], [1, 1], [1, 1])]
     if th:
         structs += [([3, 3], [1, 3, 1], [1, 2, 1]), ([2, 3, 2], [1, 2, 1, 1], [1, 2, 2, 1])]
     for N, RA, Rb in structs:
@@ -44,7 +46,7 @@ def meta(tier):
     return {
         'functions': loader.functions_encoded(fns), 'sig': sig,
         'bounds': 'CLAUSE DECIDED: only "x / y, scalar / y and elementwise_divide(x, y, ...) return a TT tensor of the same shape (well-formed rank chain) and raise nothing". ("Dividing by a scalar is exact" is decided under C03.) '
-                  'orders 1..3, mode sizes 2..3, ranks 1..3, nswp 1..2, preconditioner None / c, optional initial guess; the 50-sweep loop of the operators is unrolled 1 (thorough 2) times; every floating value is havoc',
+                  'orders 1..3, mode sizes 1..3 (singleton modes first, last and interior), ranks 1..3, nswp 1..2, preconditioner None / c, optional initial guess; the 50-sweep loop of the operators is unrolled 1 (thorough 2) times; every floating value is havoc',
         'outside': 'the accuracy clause of C13 (an AMEn solve: convergence not encodable); later sweeps of the operators; the Krylov loops themselves (replaced by a contract)',
         'assumptions': ['floating data abstracted to HAVOC (over-approximation)', 'rank_chop replaced by "any rank in [1, len(s)]"', 'gmres_restart replaced by its contract (see C12)', 'loops of 50+ iterations cut after the stated unrolling',
                         'z3 sat/unsat verdicts; unknown counted inconclusive'],
